@@ -531,6 +531,11 @@ def edit_byte_interval(
 
     size_delta = len(content) - length
 
+    if content and offset > len(bi.contents):
+        # The edit lies beyond the initialized bytes; materialize the
+        # (zero) bytes in front of it so that the content lands at offset.
+        bi.initialized_size = offset
+
     bi.size += size_delta
     bi.contents = (
         bi.contents[:offset] + content + bi.contents[offset + length :]
